@@ -163,10 +163,9 @@ class Interp:
             b = self.key_of(p, e["b"])
             if b is None:
                 return None
-            if "->" not in b and "." not in b and "[" not in b:
-                v = self._lookup_raw(p, b)
-                if isinstance(v, Ptr) and isinstance(v.what, str) and v.what[:4] not in ("str:", "arr:") and not v.what.startswith("fn:"):
-                    b = v.what        # indexing through a pointer to an abstract array object
+            v = self._lookup_raw(p, self.canon(p, b))
+            if isinstance(v, Ptr) and isinstance(v.what, str) and v.what[:4] not in ("str:", "arr:") and not v.what.startswith("fn:"):
+                b = v.what        # indexing through a pointer to an abstract array object
             iv = self.ev(p, e["i"])
             if isinstance(iv, int):
                 return "%s[%d]" % (b, iv)
